@@ -19,6 +19,7 @@ if [ "${MUTANT_IN_REPO:-0}" = "1" ]; then
   trap 'git -C /repo checkout -- cardillo' EXIT
   TREE=/repo
 else
+  mkdir -p /tmp/wt
   TREE=$(mktemp -d /tmp/wt/eval.XXXXXX)
   rmdir "$TREE"
   git -C /repo worktree add -q --detach "$TREE" HEAD || exit 2
